@@ -136,6 +136,21 @@ theorem lowest_is_servable_and_minimal (s : FState) (h : Blk) (f : Entry) (rest 
     | none => rfl
     | some x => rw [hb] at hserved; cases hserved
 
+/-! ### readiness (`ForkableHub.bootstrap`, compared with the real hub block by block by the `hubready` suite) -/
+
+/-- **ready only when the live block links to the LIB height it declares**: the hub turns ready exactly when, after the
+    live block `b` has been handed to the forkable, `Linkable(b)` holds; for a stored block this means that
+    `BlockInCurrentChain(b, b.lib)` names a block, and that block lies on `b`'s ancestry through stored blocks -/
+theorem ready_links_to_declared_lib (s : FState) (b : Blk) (e : Entry) (hf : s.db.find b.id = some e)
+    (h0 : s.db.numOf? "" = none) (hl : linkable s b = true) :
+    (s.db.blockInChain b.ref b.lib).isEmpty = false ∧
+    ((s.db.blockInChain b.ref b.lib).id ≠ "" →
+      (s.db.blockInChain b.ref b.lib).id ∈ s.db.walkDown (s.db.entries.length + 2) b.id) := by
+  unfold linkable at hl
+  rw [hf] at hl
+  simp only at hl
+  refine ⟨by simpa using hl, fun hne => BstreamVerif.ForkDB.blockInChain_on_walk s.db h0 b.ref b.lib hne⟩
+
 /-! ### the with-forks snapshot -/
 
 theorem mem_ins (b x : Blk) (l : List Blk) : x ∈ insByNum b l ↔ x = b ∨ x ∈ l := by
